@@ -10,7 +10,10 @@
 //
 // parts: --part inter | pot | spline      budgets: --n <cases>
 #include "vfh.h"
+#include <atomic>
+#include <chrono>
 #include <csignal>
+#include <thread>
 #include <fstream>
 #include <votca/csg/interaction.h>
 #include <votca/csg/potentialfunctions/potentialfunctioncbspl.h>
@@ -1003,6 +1006,160 @@ static void part_spline(vfh::Rng &rng, vfh::Reporter &R, long ncases) {
   }
 }
 
+
+// ================================================================ part 4: concurrent use of distinct objects
+// T threads, each owning its own potential functions (lj126, ljg, cbspl), splines (cubic, akima, linear)
+// and bonded interactions (with its own Topology), evaluate value and derivatives at thread-private
+// random arguments in tight loops, released together by a barrier, several rounds. Oracle: the same call
+// sequences executed serially beforehand on identically constructed objects give bit-identical results.
+static const char *CFORM[] = {"lj126", "ljg", "cbspl", "cubic", "akima", "linear", "bond", "angle", "dihedral"};
+struct ConcObjs {
+  std::unique_ptr<PotentialFunction> pot[3];
+  double pmin[3], pcut[3];
+  std::unique_ptr<votca::tools::Spline> sp[3];
+  double sx0[3], sx1[3];
+  std::unique_ptr<Topology> top;
+  std::unique_ptr<Interaction> ia[3];
+};
+static void make_objs(ConcObjs &O, uint64_t seed) {
+  vfh::Rng r(seed);
+  for (int t = 0; t < 3; ++t) {
+    double cut = r.logu(0.5, 3.0), mn = r.uni(0.02, 0.3) * cut;
+    Index nl = t == 2 ? r.range(10, 40) : 0;
+    for (;;) {
+      try { O.pot[t] = make_pot(t, nl, mn, cut); break; } catch (std::runtime_error &) { mn *= 0.5; }
+    }
+    std::vector<double> v = gen_params(r, t, cut, O.pot[t]->getParamSize());
+    for (Index i = 0; i < (Index)v.size(); ++i) O.pot[t]->setParam(i, v[i]);
+    O.pmin[t] = mn; O.pcut[t] = cut;
+  }
+  for (int t = 0; t < 3; ++t) {
+    Data D = gen_data(r, 6);
+    if (t == 0) O.sp[t] = std::make_unique<votca::tools::CubicSpline>();
+    else if (t == 1) O.sp[t] = std::make_unique<votca::tools::AkimaSpline>();
+    else O.sp[t] = std::make_unique<votca::tools::LinSpline>();
+    O.sp[t]->Interpolate(D.x, D.y);
+    O.sx0[t] = D.x[0]; O.sx1[t] = D.x[D.x.size() - 1];
+  }
+  Chain C = gen_chain(r, 4);
+  BoxG B = gen_box(r, 1 + (int)r.range(0, 1), C.lmax);
+  while (box_hmin(B) * 0.45 < C.lmax) B.m *= 1.5;
+  O.top = std::make_unique<Topology>();
+  O.top->setBox(B.m);
+  for (int k = 0; k < 4; ++k) O.top->CreateBead(Bead::spherical, "a", "A", 1, 1.0, 0.0)->setPos(C.p[k]);
+  O.ia[0] = std::make_unique<IBond>(0, 1);
+  O.ia[1] = std::make_unique<IAngle>(0, 1, 2);
+  O.ia[2] = std::make_unique<IDihedral>(0, 1, 2, 3);
+}
+// one round of calls; out: results, tags (form*2 + is_derivative) only filled when tags != nullptr
+static void conc_work(ConcObjs &O, uint64_t seed, int round, long calls, std::vector<double> &out, std::vector<uint8_t> *tags) {
+  vfh::Rng r(seed * 2654435761ULL + (uint64_t)round * 40503ULL + 17);
+  out.clear();
+  auto put = [&](int form, bool der, double v) { out.push_back(v); if (tags) tags->push_back((uint8_t)(form * 2 + (der ? 1 : 0))); };
+  static const int pattern[12] = {0, 1, 2, 3, 0, 4, 5, 6, 0, 7, 8, 1};
+  for (long k = 0; k < calls; ++k) {
+    int form = pattern[k % 12];
+    if (form < 3) {
+      PotentialFunction &pf = *O.pot[form];
+      double x = r.uni(O.pmin[form], O.pcut[form] * 1.02);
+      if (form == 2 && x > O.pcut[form]) x = O.pcut[form];
+      put(form, false, pf.CalculateF(x));
+      Index no = pf.getOptParamSize();
+      Index i = (Index)r.range(0, no - 1), j = (Index)r.range(0, no - 1);
+      put(form, true, pf.CalculateDF(i, x));
+      put(form, true, pf.CalculateDF(j, x));
+      put(form, true, pf.CalculateD2F(i, j, x));
+    } else if (form < 6) {
+      int t = form - 3;
+      double L = O.sx1[t] - O.sx0[t], x = r.uni(O.sx0[t] - 0.1 * L, O.sx1[t] + 0.1 * L);
+      put(form, false, O.sp[t]->Calculate(x));
+      put(form, true, O.sp[t]->CalculateDerivative(x));
+    } else {
+      int t = form - 6;
+      put(form, false, O.ia[t]->EvaluateVar(*O.top));
+      V3 g = O.ia[t]->Grad(*O.top, (Index)r.range(0, t + 1));
+      put(form, true, g[0]); put(form, true, g[1]); put(form, true, g[2]);
+    }
+  }
+}
+struct SpinBarrier {
+  std::atomic<int> count{0}, gen{0};
+  int n;
+  explicit SpinBarrier(int nn) : n(nn) {}
+  void wait() {
+    int g = gen.load();
+    if (count.fetch_add(1) + 1 == n) { count.store(0); gen.fetch_add(1); }
+    else while (gen.load() == g) std::this_thread::yield();
+  }
+};
+static void part_conc(vfh::Reporter &R, long seed, long shard, int T, int rounds, long calls) {
+  std::vector<uint64_t> tseed(T);
+  for (int t = 0; t < T; ++t) tseed[t] = vfh::hmix(vfh::hmix(vfh::hmix(99, (uint64_t)seed), (uint64_t)shard), (uint64_t)t);
+  // ---- serial reference
+  std::vector<std::vector<std::vector<double>>> ser(T, std::vector<std::vector<double>>(rounds)), con = ser;
+  std::vector<uint8_t> tags;
+  for (int t = 0; t < T; ++t) {
+    ConcObjs O;
+    make_objs(O, tseed[t]);
+    for (int rd = 0; rd < rounds; ++rd) conc_work(O, tseed[t], rd, calls, ser[t][rd], (t == 0 && rd == 0) ? &tags : nullptr);
+  }
+  // ---- concurrent run on identically constructed objects
+  std::vector<ConcObjs> objs(T);
+  for (int t = 0; t < T; ++t) make_objs(objs[t], tseed[t]);
+  SpinBarrier bar(T);
+  typedef std::chrono::steady_clock clk;
+  std::vector<std::vector<long long>> t0(T, std::vector<long long>(rounds)), t1 = t0;
+  std::vector<std::thread> th;
+  for (int t = 0; t < T; ++t)
+    th.emplace_back([&, t]() {
+      for (int rd = 0; rd < rounds; ++rd) {
+        bar.wait();
+        t0[t][rd] = std::chrono::duration_cast<std::chrono::nanoseconds>(clk::now().time_since_epoch()).count();
+        conc_work(objs[t], tseed[t], rd, calls, con[t][rd], nullptr);
+        t1[t][rd] = std::chrono::duration_cast<std::chrono::nanoseconds>(clk::now().time_since_epoch()).count();
+      }
+    });
+  for (auto &x : th) x.join();
+  // ---- compare bit for bit
+  long long nform[9] = {0};
+  for (int t = 0; t < T; ++t)
+    for (int rd = 0; rd < rounds; ++rd) {
+      const auto &a = ser[t][rd], &b = con[t][rd];
+      bool clean = a.size() == b.size() && a.size() == tags.size();
+      if (!clean) { R.violation("concurrent/result-count-differs", "concurrent run produced a different number of results", J().i("thread", t).i("round", rd)); continue; }
+      for (size_t k = 0; k < a.size(); ++k) {
+        int form = tags[k] / 2;
+        bool der = tags[k] % 2;
+        ++nform[form];
+        if (std::memcmp(&a[k], &b[k], sizeof(double)) != 0 && !(std::isnan(a[k]) && std::isnan(b[k]))) {
+          clean = false;
+          R.violation(std::string("concurrent/") + CFORM[form] + (der ? "/derivative-differs-from-serial" : "/value-differs-from-serial"),
+                      "a result obtained while other threads evaluate their own objects differs from the same call sequence executed serially",
+                      J().i("seed", seed).i("shard", shard).i("threads", T).i("rounds", rounds).i("calls_per_round", calls).i("thread", t).i("round", rd).i("result_index", (long long)k)
+                          .d("serial", a[k]).d("concurrent", b[k]));
+        }
+      }
+      if (clean) R.nontrivial(vfh::hdouble(vfh::hdouble(vfh::hmix(vfh::hmix(555, tseed[t]), (uint64_t)rd), a[0]), a[a.size() - 1]));
+    }
+  for (int f = 0; f < 9; ++f) R.eval(std::string("concurrent_") + CFORM[f], nform[f]);
+  // ---- interleaving evidence from the time stamps
+  long all_overlap = 0, some_overlap = 0;
+  for (int rd = 0; rd < rounds; ++rd) {
+    long long maxstart = 0, minend = (1LL << 62);
+    int pairs = 0;
+    for (int t = 0; t < T; ++t) { maxstart = std::max(maxstart, t0[t][rd]); minend = std::min(minend, t1[t][rd]); }
+    for (int t = 0; t < T; ++t) for (int u = t + 1; u < T; ++u) if (t0[t][rd] < t1[u][rd] && t0[u][rd] < t1[t][rd]) ++pairs;
+    if (maxstart < minend) ++all_overlap;
+    if (pairs) ++some_overlap;
+  }
+  R.counter("concurrent_shards_with_" + std::to_string(T) + "_threads");
+  R.counter("concurrent_thread_rounds", (long long)T * rounds);
+  R.counter("concurrent_rounds", rounds);
+  R.counter("concurrent_rounds_with_all_threads_overlapping", all_overlap);
+  R.counter("concurrent_rounds_with_some_threads_overlapping", some_overlap);
+  R.sample(J().i("threads", T).i("rounds", rounds).i("calls_per_round", calls).i("rounds_all_threads_overlapping", all_overlap).d("first_result_serial", ser[0][0][0]).d("first_result_concurrent", con[0][0][0]));
+}
+
 // print the running case on abort, then hand over to the sanitizer's handler
 static struct sigaction g_old_abrt;
 static void on_abort(int sig, siginfo_t *si, void *ctx) {
@@ -1031,6 +1188,7 @@ int main(int argc, char **argv) {
   else if (part == "interx") part_inter(rng, R, n, true);
   else if (part == "pot") part_pot(rng, R, n, tmp);
   else if (part == "spline") part_spline(rng, R, n);
+  else if (part == "conc") part_conc(R, seed, shard, (int)A.num("threads", 4), (int)A.num("rounds", 10), n);
   else { std::cerr << "unknown part\n"; return 3; }
   R.summary();
   for (auto &kv : g_worst) std::cerr << "STAT worst diff/tol " << kv.first << " " << kv.second << "\n";
